@@ -1,6 +1,6 @@
-(* BodyPartReader._align_base64_chunk: a chunk handed back before the end of the part ends on a quartet
-   edge PROVIDED it holds at least four base64 characters; a shorter chunk is returned as it is, which is the
-   defect replayed by corpus/C19/base64_short_read.json (the refutation witness below). *)
+(* BodyPartReader._align_base64_chunk: a chunk handed back before the end of the part ends on a quartet edge, unless
+   the requested number of bytes was there and held no whole quartet.  After a short read the partial quartet is
+   carried and read_chunk reads on (fix 75d1fb0; regression case corpus/C19/fixed-base64_short_read.json). *)
 From AV Require Import Lib.Base Generated.MultipartGen Model.Multipart Proofs.MultipartStream.
 From Coq Require Import ZifyBool ZifyN ZifyNat.
 Open Scope N_scope.
@@ -47,28 +47,31 @@ Qed.
 Definition at_end (p : part) : bool :=
   p_at_eof p || match p_length p with Some l => l <=? p_read_bytes p | None => false end.
 
-Definition align_tail (chunk1 : bytes) (p1 : part) : bytes * part :=
+Definition align_tail (size : N) (chunk1 : bytes) (p1 : part) : bytes * part :=
   let remainder := count_b64 chunk1 mod 4 in
   if (remainder =? 0) || false then (chunk1, p1) else
   let cut := lenN chunk1 - walk_back (rev chunk1) remainder 0 in
-  if cut =? 0 then (chunk1, p1)
+  if cut =? 0 then
+    if lenN chunk1 <? size then ([], p_set_carry (chunk1 ++ p_carry p1) p1) else (chunk1, p1)
   else (takeb cut chunk1, p_set_carry (dropb cut chunk1 ++ p_carry p1) p1).
 
 Lemma align_base64_eq chunk size p :
   at_end p = false ->
   align_base64 chunk size p =
-  if size <? lenN chunk then align_tail (takeb size chunk) (p_set_carry (dropb size chunk) p) else align_tail chunk p.
+  if size <? lenN chunk then align_tail size (takeb size chunk) (p_set_carry (dropb size chunk) p) else align_tail size chunk p.
 Proof.
   intro AE. unfold align_base64. fold (at_end p). rewrite AE. cbn [negb andb].
   destruct (size <? lenN chunk); reflexivity.
 Qed.
 
-Lemma align_tail_quartets chunk1 p1 c p' :
-  align_tail chunk1 p1 = (c, p') -> 4 <= count_b64 c -> count_b64 c mod 4 = 0.
+(* the chunk handed back ends on a quartet edge, except when the requested number of bytes was there and held no
+   whole quartet (then it is handed back as it is: carrying it would make no progress) *)
+Lemma align_tail_quartets size chunk1 p1 c p' :
+  align_tail size chunk1 p1 = (c, p') -> count_b64 c mod 4 = 0 \/ (size <= lenN c /\ count_b64 c < 4).
 Proof.
   unfold align_tail. cbv zeta. rewrite orb_false_r.
   destruct (count_b64 chunk1 mod 4 =? 0) eqn:R0.
-  - intro H. inversion H; subst. intros _. apply N.eqb_eq in R0. exact R0.
+  - intro H. inversion H; subst. left. apply N.eqb_eq in R0. exact R0.
   - apply N.eqb_neq in R0.
     assert (RL : count_b64 chunk1 mod 4 <= count_b64 (rev chunk1)). { rewrite count_b64_rev. lia. }
     destruct (walk_back_spec (rev chunk1) (count_b64 chunk1 mod 4) 0 RL) as (k & K1 & K2 & K3).
@@ -79,28 +82,28 @@ Proof.
       { rewrite <- count_b64_app, firstn_skipn. reflexivity. }
       rewrite count_b64_rev, K3 in E. lia. }
     destruct (lenN chunk1 - N.of_nat k =? 0) eqn:C0.
-    + intro H. inversion H; subst. intro G. exfalso.
-      apply N.eqb_eq in C0. assert (k = length c) by (unfold lenN in C0; lia). subst k.
-      rewrite skipn_all2 in SK by (rewrite rev_length; lia). cbn [rev] in SK. rewrite count_b64_nil in SK. lia.
-    + intro H. inversion H; subst. intros _. rewrite (takeb_rev_skipn chunk1 k K1), SK. lia.
+    + destruct (lenN chunk1 <? size) eqn:SH; intro H; inversion H; subst.
+      * left. reflexivity.
+      * right. split; [lia|].
+        apply N.eqb_eq in C0. assert (k = length c) by (unfold lenN in C0; lia). subst k.
+        rewrite skipn_all2 in SK by (rewrite rev_length; lia). cbn [rev] in SK. rewrite count_b64_nil in SK. lia.
+    + intro H. inversion H; subst. left. rewrite (takeb_rev_skipn chunk1 k K1), SK. lia.
 Qed.
 
 Theorem align_base64_quartets chunk size p c p' :
-  align_base64 chunk size p = (c, p') -> at_end p = false -> 4 <= count_b64 c -> count_b64 c mod 4 = 0.
+  align_base64 chunk size p = (c, p') -> at_end p = false ->
+  count_b64 c mod 4 = 0 \/ (size <= lenN c /\ count_b64 c < 4).
 Proof.
   intros H AE. rewrite (align_base64_eq _ _ _ AE) in H.
   destruct (size <? lenN chunk); eapply align_tail_quartets; exact H.
 Qed.
 
-(* the refutation: a base64 part whose first stream read returns one content byte *)
+(* the former refutation witness (first stream read = one content byte of a base64 part): read_chunk now waits for
+   the rest of the quartet *)
 Definition b64_part : part := new_part [45; 45; 66; 78; 68] None true 4611686018427387903.
 Definition b64_stream : stream :=
   mkStream [89] [(1000000, [87; 74; 106; 90; 71; 86; 109; 13; 10; 45; 45; 66; 78; 68; 45; 45; 13; 10])] false true 65536 131072.
 
-Theorem base64_alignment_refuted :
-  exists p s d p' s', p_b64 p = true /\ read_chunk chunk_size p s = Ok (d, p', s') /\
-                      p_at_eof p' = false /\ d = [89] /\ count_b64 d mod 4 = 1.
-Proof.
-  exists b64_part, b64_stream. eexists. eexists. eexists.
-  split; [reflexivity|]. split; [vm_compute; reflexivity|]. split; [reflexivity|]. split; reflexivity.
-Qed.
+Lemma base64_short_read_example :
+  exists d p' s', read_chunk chunk_size b64_part b64_stream = Ok (d, p', s') /\ d <> [] /\ count_b64 d mod 4 = 0.
+Proof. eexists. eexists. eexists. split; [vm_compute; reflexivity|]. split; [discriminate|reflexivity]. Qed.
